@@ -351,6 +351,12 @@ protected:
   // ---- memory
   inline T_PointerType impl_malloc_in_sandbox(size_t sz)
   {
+    // Not created (never, failed creation, or destroyed): RLBox must not ask at all.  A backend in that state owes
+    // nothing, so the model answers with a non-null value: a request that leaks through becomes visible to the caller.
+    if (base == 0) {
+      vsbx_ev.mallocs++;
+      return static_cast<T_PointerType>(64);
+    }
     size_t r = (sz + 7) & ~size_t(7);
     if (r < sz || r > size || brk + r > size) return 0;
     if (alloc_limit && brk + r > alloc_limit) return 0;
